@@ -364,6 +364,9 @@ def gen_case(ctx, thorough):
     else:
         c["mode"] = {"k": "fixed", "vec": [v.hex() for v in probe]}
     c["via_result"] = c["mode"]["k"] in ("means", "bounded") and rng.random() < 0.5
+    # searches freeze the model while fitting; mapper_from_* explicitly support a frozen model (copy_with_fixed_priors
+    # deep-copies the frozen flag and then refuses to modify the copy: a frozen model is immutable by contract, not generated)
+    c["frozen"] = c["mode"]["k"] != "fixed" and rng.random() < 0.2
     c["new_probe"] = new_probe(c)
     return c
 
@@ -756,6 +759,8 @@ def run(ctx):
         cls = classes_of(c)
         key = {"program": prog, "mode": c["mode"], "wms": c.get("wms")}
         ctx.count_case(key, nontrivial(c), c["mode"]["k"])
+        ctx.hist("frozen", bool(c.get("frozen")))
+        ctx.hist("via-result", bool(c.get("via_result")))
         for f in prog["features"]:
             ctx.hist("feature", f)
         ctx.hist("priors", min(len(prog["pool"]), 20))
